@@ -60,6 +60,12 @@ Sgr(s) == (IF s.fg = NoColour THEN {} ELSE {FgCode(s.fg)}) \cup (IF s.bg = NoCol
           \cup {AttrCode(a) : a \in SetOf(s.at)}
 NoStyle == [named |-> FALSE, name |-> "", sup |-> "", fg |-> NoColour, bg |-> NoColour, at |-> <<>>]
 
+\* ------------------------------------------------------------------ P-layer: when an output is decorated
+\* formatter kinds: "plain" (disables ANSI), "ansi" (uses it where the stream supports it), "forced" (forces it).
+\* An output renders decorated iff its formatter forces ANSI, or uses it and the stream supports it - whether the pair
+\* (stream, formatter) was given to the constructor or put in place later by set_stream / set_formatter.
+PDecorated(fk, sa) == fk = "forced" \/ (fk = "ansi" /\ sa)
+
 \* ------------------------------------------------------------------ P-layer: text and rendering
 IsTag(g) == g.k \in {"open", "close", "closeany", "unk"}
 Lit(g) == CASE g.k = "t" -> <<g.c>> [] g.k = "esc" -> <<"<">> [] g.k = "unk" -> g.lit [] OTHER -> <<>>
